@@ -832,6 +832,60 @@ def check_walker(ctx):
            '(path: %s)' % skipped.cond_text()[-200:])
 
 
+def check_applied_whole(ctx):
+    """What a file defines is what is applied: the loader hands the store
+    parsed from the file to set_rules() as it is.  An entry taken out in
+    between (a name that "only restates the default") lets an earlier
+    layer's different definition survive a later file."""
+    prog = ctx.prog
+    r = roles(ctx)
+    fns = [r.loader] + [g for n in walk_no_nested(r.loader.node)
+                        if isinstance(n, ast.Call)
+                        for g in [prog.callee_of(r.loader, n)]
+                        if g is not None and g.cls is r.loader.cls
+                        and g is not r.recorder and g is not r.load_rules
+                        and g.name != 'set_rules']
+    n = 0
+    for f in fns:
+        parsed = set()
+        for a in walk_no_nested(f.node):
+            if isinstance(a, ast.Assign) and len(a.targets) == 1 and \
+                    isinstance(a.targets[0], ast.Name) and isinstance(
+                        a.value, ast.Call) and (prog.resolve(
+                            f.module, a.value.func) or '').startswith(
+                                POLICY + '.Rules'):
+                parsed.add(a.targets[0].id)
+        if not parsed:
+            continue
+        n += 1
+        bad = None
+        for x in walk_no_nested(f.node):
+            tgt = None
+            if isinstance(x, ast.Delete):
+                for d in x.targets:
+                    if isinstance(d, ast.Subscript) and U(d.value) in parsed:
+                        tgt = d
+            elif isinstance(x, ast.Assign):
+                for d in x.targets:
+                    if isinstance(d, ast.Subscript) and U(d.value) in parsed:
+                        tgt = d
+            elif isinstance(x, ast.Call) and method_call(x) and U(
+                    method_call(x)[0]) in parsed and method_call(x)[1] in (
+                        'pop', 'popitem', 'clear', 'update', 'setdefault',
+                        '__delitem__', '__setitem__'):
+                tgt = x
+            if tgt is not None and bad is None:
+                bad = tgt
+        ctx.ob('C09.ORDER', bad is None, ctx.where(f.module, bad or f.node),
+               f.qual, 'parsed file rules %s' % sorted(parsed),
+               'the rules parsed from a file are applied as parsed'
+               if bad is None else
+               'the store parsed from a policy file is changed before it is '
+               'applied (`%s`): a file no longer overrides the layers '
+               'before it with everything it defines' % U(bad)[:60])
+    ctx.floor('C09.ORDER', n, 1, 'file-applying functions')
+
+
 def soft_lookups(prog, r):
     """Functions that answer the located path, or None / a falsy value for a
     path the configuration's file search does not find, and never raise
@@ -1056,6 +1110,7 @@ def check(ctx):
     pick = check_pick(ctx)
     check_file_src(ctx, pick)
     check_order(ctx)
+    check_applied_whole(ctx)
     check_find(ctx)
     check_dirs(ctx)
     check_walker(ctx)
